@@ -591,6 +591,14 @@ macro_rules! c08_grid {
                     let mut total = 0u64;
                     let nel = 60u64;
                     let base = (e.rng.next() >> 8) % 40_000;
+                    if s % 3 == 0 {
+                        // a sketch that was used and cleared gives the same guarantee as a fresh one
+                        for i in 0..5u64 {
+                            let k = $mk(base + 50_000 + i);
+                            c.add_n($asref(&k), &(7 + i));
+                        }
+                        c.clear();
+                    }
                     match shape {
                         0 => {
                             for i in 0..nel {
